@@ -81,11 +81,14 @@ Section Machine.
     end.
 
   (* histories: runs (possibly killed) and arbitrary changes of the tree in between *)
-  Inductive op := Run (a : Args) (stop : nat) | Edit (t : Tree).
+  (* ... and damage to a cache file: truncated or unreadable (a kill inside its write, a full disk);
+     such a file does not deserialize, which is the same as no cache *)
+  Inductive op := Run (a : Args) (stop : nat) | Edit (t : Tree) | Corrupt (l : bool).
   Definition mstep (w : world) (o : op) : world :=
     match o with
     | Run a k => fst (mrun a k w)
     | Edit t => {| w_tree := t; w_global := w_global w; w_local := w_local w |}
+    | Corrupt l => set_slot w l {| s_ninja := s_ninja (get_slot w l); s_cache := None |}
     end.
   Definition empty_slot : slot := {| s_ninja := NAbsent; s_cache := None |}.
   Definition fresh (t : Tree) : world := {| w_tree := t; w_global := empty_slot; w_local := empty_slot |}.
@@ -122,7 +125,7 @@ End Machine.
 
 Arguments NAbsent {R}. Arguments NPartial {R}. Arguments NComplete {R}.
 Arguments OHit {R}. Arguments ORegen {R}. Arguments OFail {R}. Arguments OKilled {R}.
-Arguments Run {Tree Args}. Arguments Edit {Tree Args}.
+Arguments Run {Tree Args}. Arguments Edit {Tree Args}. Arguments Corrupt {Tree Args}.
 
 (* ================================================================ part 2: laze's instance *)
 (* A tree assigns a version to every file; [store f v] is the content of version v of file f, so a
@@ -136,7 +139,8 @@ Record cargs := {
   ca_bin : N;                                  (* build uuid of the laze binary *)
   ca_le : lazeenv; ca_builders : selector; ca_apps : selector; ca_local : option str;
   ca_select : list str; ca_disable : list str; ca_define : list str;
-  ca_partition : option (nat * nat) }.
+  ca_partition : option (nat * nat);
+  ca_info : bool }.                           (* --info-export: the cache is not read (it is still written) *)
 
 Definition project_file : str := S_ "laze-project.yml".
 
@@ -213,7 +217,8 @@ Definition caccepts (c : cargs) (r : gen_result) (a : cargs) : bool :=
   (match ca_local a, ca_local c with Some p, Some q => str_eqb p q | _, _ => true end) &&
   list_eqb str_eqb (ca_select c) (ca_select a) &&
   list_eqb str_eqb (ca_disable c) (ca_disable a) &&
-  match cli_env c, cli_env a with Ok x, Ok y => env_same x y | _, _ => false end.
+  match cli_env c, cli_env a with Ok x, Ok y => env_same x y | _, _ => false end &&
+  negb (ca_info a).                           (* try_from: "cache disabled" comes first *)
 
 (* a hit lists the builds in the order a fresh run would: by requested builder *)
 Definition cview (a : cargs) (r : gen_result) : gen_result :=
